@@ -956,7 +956,11 @@ def data_typestate(chk, cx, rule):
                     if r["rv"] == "aggregate" and r.get("agg") == "adt" and r.get("adt") == DATA:
                         n_ctor += 1
                         ok = imp.get("self_adt") == DATA and ((f.get("item") == "try_new" and "trait" not in imp) or (imp.get("automatically_derived") and f.get("item") == "clone"))
-                        chk.ob(rule, "Data is constructed only in Data::try_new (or the derived Clone): %s" % f["name"], ok, key="data:ctor:%s" % f["name"], where=loc(s.get("span")))
+                        if not ok:
+                            # an into_owned / to_owned style conversion: the bytes are the bytes of a Data that already exists
+                            import surface
+                            ok = surface.rebuilds_from_own_fields(prog, f, DATA)[0]
+                        chk.ob(rule, "Data is constructed only in Data::try_new (or the derived Clone, or rebuilt from the bytes of an existing Data): %s" % f["name"], ok, key="data:ctor:%s" % f["name"], where=loc(s.get("span")))
                     hit = [e for e in s["place"]["proj"] if e["k"] == "field" and (e.get("of") == DATA or (e.get("of") == FRAME and e.get("name") == "data"))]
                     if hit:
                         chk.ob(rule, "no assignment through Data.0 / Frame.data (%s)" % f["name"], False, key="data:assign:%s" % f["name"], where=loc(s.get("span")))
